@@ -126,3 +126,58 @@ def owner_of(A: Analysis, func: FuncInfo, node) -> FuncInfo:
         if n is node:
             return o
     return func
+
+
+def bound_args(call: ast.Call, callee: Optional[FuncInfo], skip_self=True) -> Optional[dict]:
+    """{parameter name: argument expression} of a call against the callee's signature (positional and keyword);
+    None if the call uses *args / **kwargs that cannot be bound.  `**name` entries are returned under '**'."""
+    if callee is None:
+        return None
+    params = list(callee.params)
+    if skip_self and callee.cls is not None and not callee.is_static and params:
+        params = params[1:]
+    out = {}
+    for i, a in enumerate(call.args):
+        if isinstance(a, ast.Starred):
+            out['*'] = a.value
+            continue
+        if i < len(params):
+            out[params[i]] = a
+    for kw in call.keywords:
+        if kw.arg is None:
+            out['**'] = kw.value
+        else:
+            out[kw.arg] = kw.value
+    return out
+
+
+def loop_unconditional(cfg: CFG, loop_ast, node_ast) -> bool:
+    """Every normal (non-exception) iteration of the loop evaluates node_ast: no path from the loop's body entry back
+    to the loop head, or out of the loop, that avoids it."""
+    heads = [n for n in cfg.nodes.values() if n.kind == 'for' and n.ast is loop_ast]
+    targets = {n.id for n in cfg_nodes_for(cfg, node_ast)}
+    if not heads or not targets:
+        return False
+    allnodes = list(cfg.nodes)
+    for h in heads:
+        starts = cfg.succ_by_label(h.id, 'loop')
+        outs = set(cfg.succ_by_label(h.id, 'done')) | {h.id, cfg.exit.id}
+        if cfg.find_path(starts, outs, avoid=targets, no_exc_from=allnodes) is not None:
+            return False
+    return True
+
+
+def loop_runs_to_end(loop_ast) -> bool:
+    """No `break` of this loop and no `return` in its body: every element of the iterable is visited (barring exceptions)."""
+    def walk(n, own):
+        for c in ast.iter_child_nodes(n):
+            if isinstance(c, (ast.FunctionDef, ast.AsyncFunctionDef, ast.Lambda, ast.ClassDef)):
+                continue
+            if isinstance(c, ast.Return):
+                return False
+            if isinstance(c, ast.Break) and own:
+                return False
+            if not walk(c, own and not isinstance(c, (ast.For, ast.AsyncFor, ast.While))):
+                return False
+        return True
+    return all(walk(st, True) if not isinstance(st, (ast.Return, ast.Break)) else False for st in loop_ast.body)
